@@ -151,9 +151,9 @@ func numOps() []Op {
 var (
 	payloadsB1   = alphaB
 	payloadsMini = []string{"a", "\n", mStart, mEnd, "\xe2"}
-	payloadsQ    = []string{"", "a", " ", "\n", "?", "\xe2", "\x80", "\xb9", "\xba", mStart, mEnd, "x\ny", "é", "\u1039", "\u503a", "\U0001f039"}
+	payloadsQ    = []string{"", "a", " ", "\n", "?", "\xe2", "\x80", "\xb9", "\xba", mStart, mEnd, "x\ny", "é", "\u1039", "\u503a", "\U0001f039", "b\ufffd"}
 	payloadsLong = []string{strings.Repeat("a", 61), strings.Repeat("a", 64), strings.Repeat("a", 70), strings.Repeat("a", 62) + mStart, strings.Repeat("a", 63) + "\n"}
-	runesQ       = []rune{'a', '\n', '‹', '›', 'é'}
+	runesQ       = []rune{'a', '\n', '‹', '›', 'é', 0xfffd}
 	runesFull    = []rune{'a', '\n', ' ', '‹', '›', 'é', '×', 0xfffd, 0x10ffff, 0xd800, 0xdfff, -1, 0x110000}
 	bytesQ       = []byte{'a', '\n', 0xe2, 0x80, 0xb9}
 	bytesFull    = []byte{'a', ' ', '\n', '?', 0xe2, 0x80, 0xb9, 0xba, 0xc3, 0xff}
